@@ -15,6 +15,7 @@
    with leaf_spec and the clamping law are therefore proved for the class without aspect ratio (`_partial`). *)
 From Coq Require Import QArith Bool List ZArith.
 From TV Require Import Num.QNum Num.F32 Model.Common Model.Leaf Model.Root Model.LeafSpec Proofs.LeafAxis Proofs.LeafProofs Proofs.LeafF32.
+From TV Require Import Gen.LeafGen Gen.RootGen Model.LeafGenRoot Proofs.LeafGenProofs Proofs.LeafGenSpec.
 Import ListNotations.
 Open Scope Q_scope.
 
@@ -242,6 +243,79 @@ Example C19_example_result :
     size_rel xeq (l_content_size lay) (mkSize (Fin 156) (Fin 27)).
 Proof. exact example_result. Qed.
 
+(* ---- the hand model IS the source: `gen_compute_leaf_layout` (Gen/LeafGen.v) is the whole body of
+   src/compute/leaf.rs:compute_leaf_layout (l.24-164: resolution, sizing modes, gutters, the collapse-through test, the
+   early return, the available space, the measure call with its `unreachable!()`, clamp, ratio line, floor, output),
+   compiled statement by statement from the working tree on every run by translator/gen_leaf.py (which refuses any form it
+   does not know).  It equals the hand model Model/Leaf.v -- same output, same log of measure calls, same panic -- for ANY
+   number type, so every theorem above about `compute_leaf_layout` / `root_leaf` is a theorem about the translated code. *)
+Theorem C19_translated_leaf_is_model : forall (T : Type) (N : Num T)
+    (inputs : LayoutInput T) (style : Style T) (measure : MeasureFn T),
+  gen_compute_leaf_layout inputs style measure = compute_leaf_layout inputs style measure.
+Proof. intros T N. exact gen_leaf_is_model. Qed.
+
+(* the one-node tree over the translated leaf routine (Model/LeafGenRoot.v: Root.root_leaf with gen_compute_leaf_layout) *)
+Theorem C19_translated_root_leaf_is_model : forall (T : Type) (N : Num T)
+    (style : Style T) (measure : MeasureFn T) (av : Size (AvailableSpace T)),
+  gen_root_leaf style measure av = root_leaf style measure av.
+Proof. intros T N. exact gen_root_leaf_is_model. Qed.
+
+(* ---- the same for compute_root_layout: `gen_compute_root_layout` (Gen/RootGen.v) is the whole body of
+   src/compute/mod.rs:compute_root_layout (block stretch-fit known dimensions under cfg(block_layout), the
+   perform_child_layout call with the LayoutInput that src/tree/traits.rs builds, the stored Layout), the child layout
+   being a parameter that returns the output and the measure calls it made.  It is Root.root_input / Root.root_assemble
+   around the child layout, for any number type and any child-layout function. *)
+Theorem C19_translated_root_is_model : forall (T : Type) (N : Num T) (style : Style T)
+    (child : LayoutInput T -> option (LayoutOutput T * list (MeasureCall T))) (av : Size (AvailableSpace T)),
+  gen_compute_root_layout style child av =
+  match child (root_input style av) with
+  | Some (output, calls) => Some (root_assemble style av output, calls)
+  | None => None
+  end.
+Proof. intros T N. exact gen_root_is_model. Qed.
+
+(* translated root around translated leaf (only TaffyView::compute_child_layout's dispatch for a childless node on an
+   empty cache stays hand-written, Root.childless_child_layout) = the `root_leaf` of the theorems above *)
+Theorem C19_translated_root_translated_leaf_is_model : forall (T : Type) (N : Num T)
+    (style : Style T) (measure : MeasureFn T) (av : Size (AvailableSpace T)),
+  gen_root_gen_leaf style measure av = root_leaf style measure av.
+Proof. intros T N. exact gen_root_gen_leaf_is_model. Qed.
+
+(* C19_spec_partial (about translated root + translated leaf), C19_floor_leaf and C19_measure_args restated about the
+   translated functions *)
+Theorem C19_spec_translated_partial : forall (st : Style XQ) (measure : MeasureFn XQ) (av : Size (AvailableSpace XQ)),
+  fin_style st -> size_all fin_avail av -> fin_measure measure -> nonneg_padding_border st av ->
+  display st <> DNone -> aspect_ratio st = None ->
+  exists lay aa,
+    gen_root_gen_leaf st measure av = Some (lay, [(size_NONE, aa)]) /\
+    size_rel avail_xeq aa (leaf_spec_measure_avail st av) /\
+    layout_xeq lay (leaf_spec st av (measure size_NONE aa)).
+Proof. exact gen_root_leaf_spec_noratio. Qed.
+
+Theorem C19_floor_translated_leaf : forall (inputs : LayoutInput XQ) (st : Style XQ) (measure : MeasureFn XQ) out calls pbw pbh,
+  gen_compute_leaf_layout inputs st measure = Some (out, calls) ->
+  sum_axes (le_padding_border (leaf_env inputs st)) = mkSize (Fin pbw) (Fin pbh) ->
+  x_leb (Fin pbw) (width (out_size out)) = true /\ x_leb (Fin pbh) (height (out_size out)) = true.
+Proof. exact gen_leaf_floor. Qed.
+
+Theorem C19_measure_args_translated : forall (inputs : LayoutInput XQ) (st : Style XQ) (measure : MeasureFn XQ) out calls,
+  gen_compute_leaf_layout inputs st measure = Some (out, calls) ->
+  (calls = [] /\ leaf_early inputs (leaf_env inputs st) = Some out) \/
+  (leaf_early inputs (leaf_env inputs st) = None /\
+   exists known, calls = [(known, leaf_spec_avail inputs st)] /\
+     ((run_mode inputs = ComputeSize /\ known = known_dimensions inputs) \/
+      (run_mode inputs = PerformLayout /\ known = size_NONE)) /\
+     out = leaf_finish inputs (leaf_env inputs st) (measure known (leaf_spec_avail inputs st))).
+Proof. exact gen_leaf_measure_args. Qed.
+
+(* non-vacuity of C19_spec_translated_partial: the premises are C19_example_premises; the result, computed (vm_compute)
+   with the translated routine *)
+Example C19_translated_example_result :
+  exists lay aa, gen_root_gen_leaf ex_style ex_measure ex_avail = Some (lay, [(size_NONE, aa)]) /\
+    size_rel xeq (l_size lay) (mkSize (Fin 170) (Fin 62)) /\ avail_xeq (width aa) (Definite (Fin 136)) /\
+    size_rel xeq (l_content_size lay) (mkSize (Fin 156) (Fin 27)).
+Proof. exact gen_example_result. Qed.
+
 Print Assumptions C19_spec_partial.
 Print Assumptions C19_spec_refuted.
 Print Assumptions C19_ratio_transfer.
@@ -260,3 +334,11 @@ Print Assumptions KnownDimsRespected_leaf.
 Print Assumptions KnownDimsRespected_leaf_content_size.
 Print Assumptions KnownDimsRespected_leaf_refuted.
 Print Assumptions C19_tables.
+Print Assumptions C19_translated_leaf_is_model.
+Print Assumptions C19_translated_root_leaf_is_model.
+Print Assumptions C19_translated_root_is_model.
+Print Assumptions C19_translated_root_translated_leaf_is_model.
+Print Assumptions C19_spec_translated_partial.
+Print Assumptions C19_floor_translated_leaf.
+Print Assumptions C19_measure_args_translated.
+Print Assumptions C19_translated_example_result.
